@@ -260,3 +260,6 @@ def check(ctx):
     d2 = [n for n in walk_own(ins.node) if isinstance(n, ast.Assign) and isinstance(n.targets[0], ast.Name) and n.targets[0].id == "extrap"]
     ok = bool(d1) and bool(d2) and dotted(d1[0].value) == "interp_nearest" and dotted(d2[0].value) == "extrap_nearest"
     ctx.ob("C02.e", "default interpolation / extrapolation are the matching nearest pair", ok, "", sel.where)
+    # ---------------- (f) the constant-tensor helper behind the scalar-time branches
+    from .. import helper_specs
+    helper_specs.check(ctx, "C02.f", ["fullc"])
